@@ -284,6 +284,10 @@ class FakeThreadCls:
         self.st = SimThread(self.sim, (lambda: target(*args, **(kwargs or {}))), name)
         self.daemon = True
         self.name = name
+        self.ident = id(self)
+        if not hasattr(self.sim, 'fake_threads'):
+            self.sim.fake_threads = []
+        self.sim.fake_threads.append(self)
 
     def start(self):
         self.st.os_thread.start()
@@ -295,6 +299,21 @@ class FakeThreadCls:
 
     def is_alive(self):
         return self.st.state != 'dead'
+
+
+def fake_current_thread():
+    """threading.current_thread() inside the package: the package's own Thread object when one of its threads is running"""
+    real = _threading.current_thread()
+    sim = Sim.active
+    for ft in (getattr(sim, 'fake_threads', []) if sim is not None else []):
+        if ft.st.os_thread is real:
+            return ft
+    return real
+
+
+def fake_get_ident():
+    t = fake_current_thread()
+    return t.ident if isinstance(t, FakeThreadCls) else _threading.get_ident()
 
 
 class Sim:
@@ -468,7 +487,8 @@ def patch_modules(sim):
     ft = FakeTime(sim)
     fq = types.SimpleNamespace(Queue=FakeQueue, Empty=_queue.Empty, Full=_queue.Full)
     fth = types.SimpleNamespace(Thread=FakeThreadCls, Event=_threading.Event, Lock=FakeLock, RLock=FakeRLock,
-                                current_thread=_threading.current_thread)
+                                current_thread=fake_current_thread, get_ident=fake_get_ident, main_thread=_threading.main_thread,
+                                Semaphore=_threading.Semaphore, Condition=_threading.Condition, Timer=_threading.Timer, local=_threading.local)
     for mn in ['j1939.electronic_control_unit', 'j1939.j1939_21', 'j1939.j1939_22', 'j1939.Dm14Query',
                'j1939.Dm14Server', 'j1939.memory_access']:
         m = sys.modules.get(mn)
